@@ -46,7 +46,9 @@ def check_case(acc, sch, w, mod, tname, tags, mode, v, endian, fresh=False):
     try:
         m = getattr(mod, tname)()
         if not fresh:
-            pyrt.build(m, sch, tname, v)
+            # alternately every field assigned / the fewest operations (fields holding their default are never touched)
+            pyrt.build(m, sch, tname, v, sparse=(acc.p['evaluations'] % 2 == 1))
+            acc.count('sparse_builds' if acc.p['evaluations'] % 2 == 1 else 'dense_builds')
         got = m.encode(endian)
     except Exception as e:  # noqa
         mech = ('fresh-' if fresh else '') + 'encode-raises:' + type(e).__name__ + ':' + _errclass(e)
